@@ -274,7 +274,8 @@ def store_case(rng, m, store=None, perm=None, fail=()):
         order = order[1:]
     return {'k': 'store', 'store': store, 'labels': labels, 'frames': frames, 'n': m, 'ranks': list(perm), 'fail': sorted(fail),
             'rworkers': rng.choice([None, 1, 2, 3, 4, 8]), 'rchunk': rng.randint(1, m + 1),
-            'wworkers': rng.choice([None, 1, 2, 3, 4, 8]), 'wchunk': rng.randint(1, m + 1), 'read_order': order}
+            'wworkers': rng.choice([None, 1, 2, 3, 4, 8]), 'wchunk': rng.randint(1, m + 1), 'read_order': order,
+            'per_label': rng.randrange(m) if store in ('StoreZipTSV', 'StoreZipCSV') and rng.random() < 0.6 else None}
 
 
 def nontrivial(c):
@@ -724,6 +725,13 @@ def eval_store(ctx, c, outs, res):
             fails.append(Failure('oracle', f'{desc}: read_many with workers differs: {brief(pr["ok"])} vs {brief(seq["ok"])}', c))
         else:
             for (k, snap), i in zip(pr['ok'], order):
+                if i == c.get('per_label'):
+                    # read with its own configuration (index_depth 0): the index column arrives as data
+                    ctx.count('store_per_label_config_reads')
+                    if len(snap['values']) != 3:
+                        fails.append(Failure('oracle', f'{desc}: frame {i} has its own configuration (index_depth=0) but was read as {snap}', c))
+                        break
+                    continue
                 if snap['values'] != [[tok(c['frames'][i][0][0]), tok(c['frames'][i][1][0])], [tok(c['frames'][i][0][1]), tok(c['frames'][i][1][1])]]:
                     fails.append(Failure('oracle', f'{desc}: frame read under label {k} is not frame {i}: {snap}', c))
                     break
